@@ -282,9 +282,16 @@ func c16Wall(c map[string]interface{}) interface{} {
 	return map[string]interface{}{"clock0": clock0, "clock0_us": (t0.UnixNano() / 1000) % 1000000, "ops": opsOut, "fires": append([]interface{}{}, fires...), "pending": pending, "tl": tl, "sorted": sorted}
 }
 
-// c16RemInflight replays the known finding: Rem of a recurring job while its Fn is running (the Fn blocks until released).
+// c16RemInflight: Rem (or a replacing Add) of a recurring job while its Fn is running; the Fn blocks until released, so the
+// operation lands inside the Fn whatever the timing. "variant": "rem" (default; the witness of the former finding
+// C16-rem-in-flight), "remrem" (a second Rem right after the first), "add1" (replaced by a one-shot far in the future),
+// "addr" (replaced by another every-second job).
 func c16RemInflight(c map[string]interface{}) interface{} {
 	ctx := newCtx()
+	variant, _ := c["variant"].(string)
+	if variant == "" {
+		variant = "rem"
+	}
 	cr, err := cron.NewCron(cron.NewCronBroadcaster(), 100*time.Millisecond, "c16r", 10)
 	if err != nil {
 		return map[string]interface{}{"err": "newcron:" + err.Error()}
@@ -293,7 +300,7 @@ func c16RemInflight(c map[string]interface{}) interface{} {
 	defer cr.Kill(ctx)
 	time.Sleep(5 * time.Millisecond)
 	var mu sync.Mutex
-	n := 0
+	n, nNew := 0, 0
 	started := make(chan bool, 16)
 	release := make(chan bool)
 	if e := cr.Add(ctx, "r", "* * * * * * *", func(t time.Time) error {
@@ -314,12 +321,46 @@ func c16RemInflight(c map[string]interface{}) interface{} {
 	case <-time.After(2500 * time.Millisecond):
 		return map[string]interface{}{"err": "recurring job never fired"}
 	}
-	found, _ := cr.Rem(ctx, "r")
-	pendingAfterRem := cr.PendingCount()
+	res := map[string]interface{}{"variant": variant}
+	count := func(t time.Time) error {
+		mu.Lock()
+		nNew++
+		mu.Unlock()
+		return nil
+	}
+	switch variant {
+	case "rem", "remrem":
+		found, _ := cr.Rem(ctx, "r")
+		res["found"] = found
+		if variant == "remrem" {
+			found2, _ := cr.Rem(ctx, "r")
+			res["found2"] = found2
+		}
+	case "add1":
+		if e := cr.Add(ctx, "r", "+3600s", count); e != nil {
+			res["adderr"] = e.Error()
+		}
+	case "addr":
+		if e := cr.Add(ctx, "r", "* * * * * * *", count); e != nil {
+			res["adderr"] = e.Error()
+		}
+	default:
+		return map[string]interface{}{"err": "unknown variant " + variant}
+	}
+	res["pending_after_rem"] = cr.PendingCount()
 	close(release)
 	time.Sleep(2300 * time.Millisecond)
 	mu.Lock()
-	after := n - 1
+	res["fires_after_release"] = n - 1
+	res["fires_new"] = nNew
 	mu.Unlock()
-	return map[string]interface{}{"found": found, "pending_after_rem": pendingAfterRem, "fires_after_release": after, "pending_end": cr.PendingCount()}
+	res["pending_end"] = cr.PendingCount()
+	ids := []interface{}{}
+	cr.Lock()
+	for _, j := range cr.Timeline {
+		ids = append(ids, j.Id)
+	}
+	cr.Unlock()
+	res["tl_ids"] = ids
+	return res
 }
